@@ -112,7 +112,8 @@ def byteMaskToImm8 (v : Nat) : Nat :=
 def ctz32 (v : Nat) : Nat := ((List.range 32).find? (fun i => (v >>> i) % 2 == 1)).getD 32
 
 /-- `sh` = the optional second immediate (value, predicate).  NOTE: the source tests `o0.as<Imm>().value() != 0` (the
-register operand read as an immediate - always 0) where `o2` is meant, so for 64-bit elements a second immediate is ignored. -/
+register operand read as an immediate - always 0) where `o2` is meant, so for 64-bit elements a second immediate is ignored;
+fixes/C02-16.patch repairs it (`srcMoviChecksShiftOperand`, detected by the translator). -/
 def emitSimdMoviMvni (d : SimdMoviMvniRow) (o0 : Reg) (imm : BitVec 64) (sh : Option (BitVec 64 × Nat)) : Result :=
   match sizeOpOf kVO_V_Any o0 with
   | none => invalidInstruction
@@ -125,7 +126,9 @@ def emitSimdMoviMvni (d : SimdMoviMvniRow) (o0 : Reg) (imm : BitVec 64) (sh : Op
         if isByteMask imm64 then some (imm64, byteMaskToImm8 imm64, 3)
         else if imm64 >>> 32 == imm64 % 2 ^ 32 then some (imm64 % 2 ^ 32, 0, 2) else none
       else some (imm64, 0, size0)
-    match st1 with
+    let shRefused := srcMoviChecksShiftOperand == 1 && size0 == 3 &&
+      (match sh with | some (sv, sp) => sv != 0 || sp != sopLSL | none => false)
+    match (if shRefused then none else st1) with
     | none => invalidImmediate
     | some (imm64, imm8a, size1) =>
       -- stage 2: (imm8, size, shift, shiftOp)
